@@ -284,7 +284,9 @@ func (s *References) SortAndMerge() {
 	)
 	for _, ref := range *s {
 		if EqualSystemArtifacts(ref.Artifact, curRef.Artifact) && ref.AddressMapper == curRef.AddressMapper {
-			curRef.Ranges = append(curRef.Ranges, ref.Ranges...)
+			// the full slice expression forces a re-allocation: curRef.Ranges
+			// may still be the caller's slice, its spare capacity is not ours.
+			curRef.Ranges = append(curRef.Ranges[:len(curRef.Ranges):len(curRef.Ranges)], ref.Ranges...)
 			continue
 		}
 		if len(curRef.Ranges) != 0 {
